@@ -673,8 +673,11 @@ class GroupBy:
             if isinstance(orig_type, pl.DataType):
                 series = pl.Series(arr, dtype=orig_type)
                 arrow = series.to_arrow()
-                arr = arrow.to_numpy()
-                dtype = pd.ArrowDtype(arrow.type)
+                # hand over the arrow data itself: going through a tz-naive NumPy array makes
+                # pandas re-interpret the instants as wall times (and fails on nulls)
+                return pd.Series(
+                    pd.arrays.ArrowExtensionArray(arrow), index=index, copy=False
+                )
             else:
                 arr = arr.view(int)
                 dtype = orig_type
